@@ -815,6 +815,11 @@ func doCheck(pc *propCfg, base uint64) int {
 			troubles = append(troubles, fmt.Sprintf("run %d seed %d: %s", r.Run, r.Seed, r.Trouble))
 		}
 		for _, v := range r.Viol {
+			if strings.HasSuffix(v.Rule, "@unknown") || strings.Contains(v.Rule, "@harness:") {
+				// a crash with no library frame on the stack is the harness's own: trouble, never a violation
+				troubles = append(troubles, fmt.Sprintf("run %d seed %d: harness crash: %s", r.Run, r.Seed, v.Detail))
+				continue
+			}
 			viols = append(viols, violRec{r, v, matchFinding(findings, v)})
 		}
 	}
